@@ -82,6 +82,7 @@ fn key_main<C: key::KeyColl>(a: &Args, tr: &mut out::Trace) {
                 snap_every: a.num("snapevery", 1) as u64,
                 clears: a.num("clears", 1) != 0,
                 clear_den: a.num("clearden", 6) as u64,
+                cap: a.num("cap", -1),
             };
             key::run_random::<C>(tr, &cfg);
         }
@@ -120,6 +121,7 @@ fn ord_main<C: ord::OrdColl>(a: &Args, tr: &mut out::Trace) {
                 snap_every: a.num("snapevery", 1) as u64,
                 clears: a.num("clears", 1) != 0,
                 clear_den: a.num("clearden", 5) as u64,
+                cap: a.num("cap", -1),
                 walk_den: a.num("walkden", 60) as u64,
             };
             ord::run_random::<C>(tr, &cfg);
